@@ -253,19 +253,48 @@ def _covered(root, key_roots):
     return False
 
 
+def _eq_pair(test, want_equal):
+    """(input chain, self chain) if `test` states input == self.attr (want_equal) or input != self.attr (not want_equal)."""
+    if isinstance(test, ast.UnaryOp) and isinstance(test.op, ast.Not):
+        return _eq_pair(test.operand, not want_equal)
+    if isinstance(test, ast.Compare) and len(test.ops) == 1 and isinstance(test.ops[0], ast.Eq if want_equal else ast.NotEq):
+        a, b = _chain(test.left), _chain(test.comparators[0])
+        for x, y in ((a, b), (b, a)):
+            if x and y and y.startswith("self.") and not x.startswith("self"):
+                return x
+    return None
+
+
+def _always_leaves(stmts):
+    return bool(stmts) and isinstance(stmts[-1], (ast.Return, ast.Raise, ast.Continue, ast.Break))
+
+
 def _equal_to_self(fn, store_node):
-    """Inputs that an enclosing `if <input> == self.<attr>:` equates with the object's own state on the path to the store."""
+    """Inputs equated with the object's own state on every path to the store: an enclosing `if input == self.attr:` body, the
+    else branch of `if input != self.attr:`, or an earlier guard `if input != self.attr: return/raise` in an enclosing block."""
     out = set()
-    n = getattr(store_node, "_parent", None)
     child = store_node
-    while n is not None and n is not fn:
-        if isinstance(n, ast.If) and child in n.body or (isinstance(n, ast.If) and any(child is b for b in n.body)):
-            t = n.test
-            if isinstance(t, ast.Compare) and len(t.ops) == 1 and isinstance(t.ops[0], ast.Eq):
-                a, b = _chain(t.left), _chain(t.comparators[0])
-                for x, y in ((a, b), (b, a)):
-                    if x and y and y.startswith("self.") and not x.startswith("self"):
-                        out.add(x)
+    n = getattr(store_node, "_parent", None)
+    while n is not None:
+        if isinstance(n, ast.If):
+            in_body = any(child is b for b in n.body)
+            in_else = any(child is b for b in n.orelse)
+            x = _eq_pair(n.test, True) if in_body else (_eq_pair(n.test, False) if in_else else None)
+            if x:
+                out.add(x)
+        # earlier sibling guards that leave when the input differs
+        for field in ("body", "orelse", "finalbody"):
+            block = getattr(n, field, None)
+            if isinstance(block, list) and any(child is b for b in block):
+                for st in block:
+                    if st is child:
+                        break
+                    if isinstance(st, ast.If) and not st.orelse and _always_leaves(st.body):
+                        x = _eq_pair(st.test, False)
+                        if x:
+                            out.add(x)
+        if n is fn:
+            break
         child = n
         n = getattr(n, "_parent", None)
     return out
@@ -483,6 +512,20 @@ class PerObject:
                 self.memo[i] = p.area()
         return self.memo
 
+class Guarded:
+    def __init__(self, name):
+        self.name = name
+        self.cache = {}
+    def get(self, name, kin):
+        if name != self.name:
+            return self.parent.get(name, kin)
+        key = tuple(kin.values())
+        if key in self.cache:
+            return self.cache[key]
+        obj = build(name.kind, kin)
+        self.cache[key] = obj
+        return obj
+
 _tab = {}
 def good(a, b):
     k = f"{a}_{b}"
@@ -507,7 +550,9 @@ def canary():
     proj = types.SimpleNamespace(modules={"canary": m})
     res, n = analyse(proj)
     st = sorted((r["key"], r["status"]) for r in res)
-    if st != [("canary::Memo._w", "violated"), ("canary::PerObject().memo", "discharged"), ("canary::_tab", "discharged")] or n != 2:
+    expected = sorted([("canary::Guarded().cache", "discharged"), ("canary::Memo._w", "violated"), ("canary::PerObject().memo", "discharged"),
+                       ("canary::_tab", "discharged")])
+    if st != expected or n != 2:
         raise AnalysisError(f"process-state rule canary failed: {st}")
 
 
